@@ -223,6 +223,12 @@ def interf_case(draw):
         if draw(st.booleans()):
             U = U * np.array(draw(st.lists(st.sampled_from([1.0, -1.0]), min_size=k, max_size=k)))
         kind = kind + "_realdtype"
+    if kind in ("perm", "permdiag", "block", "single_bs", "bs_product", "diag") and k >= 2 and draw(st.integers(0, 3)) == 0:
+        # the same sparse unitary as the product of two dense ones (merged interferometers, U2 @ U1): its zeros are rounding noise
+        # (1e-17) instead of exact zeros, so nullT / nullZ return a negligible angle together with an arbitrary phase (seeded change C02-F)
+        W = draw(gen.unitary(k, ["haar"]))[1]
+        U = W @ (W.conj().T @ U)
+        kind = kind + "_noisy_zeros"
     rounded = False
     # a unitary known to 9 decimals only (read from a text file, say): |U U^dag - 1| ~ 1e-9, far inside the documented
     # acceptance tolerance tol = 1e-6 of Interferometer but outside the defaults (1e-11, 1e-12) of decompositions.py
@@ -266,7 +272,7 @@ def check_interf(ctx, case):
     n, modes, mesh = case["n"], case["modes"], case["mesh"]
     U = spec.dec_param(case["U"])
     k = len(modes)
-    labels = ["op:Interferometer", "mesh:" + mesh, "matrix:" + case["kind"], "target:" + case["target"]]
+    labels = ["op:Interferometer", "mesh:" + mesh, "matrix:" + case["kind"], "target:" + case["target"]] + (["matrix:noisy_zeros"] if case["kind"].endswith("_noisy_zeros") else [])
     if modes != sorted(modes):
         labels.append("targets_not_sorted")
     if np.any(np.abs(U) == 0):
